@@ -521,17 +521,35 @@ func ruleC09c(c *Ctx, rule string) {
 		ok := len(calls_) > 0
 		if ok {
 			ok = false
+			// every successful return hands back the result of addOrderLimitOffset itself:
+			// nothing (HAVING, another filter) is applied after the slice of the order
+			nOK := 0
+			ok = true
 			for _, in := range instrs(pf) {
-				if r, isR := in.(*ssa.Return); isR && len(r.Results) > 0 {
+				r, isR := in.(*ssa.Return)
+				if !isR || len(r.Results) == 0 || isNilConst(r.Results[0]) {
+					continue
+				}
+				for _, leaf := range phiLeaves(r.Results[0]) {
+					if isNilConst(leaf) {
+						continue
+					}
+					direct := false
 					for _, cl := range calls_ {
-						if dependsOn(r.Results[0], func(x ssa.Value) bool { return x == cl.(ssa.Value) }) {
-							ok = true
+						if strip(leaf) == cl.(ssa.Value) {
+							direct = true
 						}
+					}
+					if direct {
+						nOK++
+					} else {
+						ok = false
 					}
 				}
 			}
+			ok = ok && nOK > 0
 		}
-		c.check(rule, name+" returns through addOrderLimitOffset", pf.Pos(), ok, "ORDER BY / LIMIT / OFFSET are applied on the leader/locally", name+" does not return the result of addOrderLimitOffset: ORDER BY/LIMIT/OFFSET are not (re-)applied to the final rows")
+		c.check(rule, name+" returns through addOrderLimitOffset", pf.Pos(), ok, "ORDER BY / LIMIT / OFFSET are applied last, on the leader/locally", name+" does not return the result of addOrderLimitOffset itself: ORDER BY/LIMIT/OFFSET are not (re-)applied to the final rows, or another stage (e.g. HAVING) filters after LIMIT/OFFSET sliced the order — fewer than n rows, or rows outside m..m+n-1")
 	}
 }
 
